@@ -79,6 +79,64 @@ theorem layoutV2_tick_rest (lay : Layout) (ch : ChV2) (h : Chv2Rest ch) (l' : La
   unfold LayoutV2.tick
   simp only [tickV2Pre_rest lay ch h, ht]
 
+/-! [seq] the sequence hooks of the twins when sequence mode is off / the key lists are in sync -/
+
+theorem eraseOverridden_seq (k : KState) (r : List Nat) : (eraseOverridden k r).seq = k.seq := by
+  unfold eraseOverridden
+  simp only []
+  split <;> rfl
+
+theorem applyCapsWord_seq (k : KState) (cur : List KeyCode) : (applyCapsWord k cur).2.seq = k.seq := by
+  unfold applyCapsWord
+  split
+  · rfl
+  · rfl
+
+theorem seqReleasedHookV2_inactive (s : KV2) (cur : List KeyCode) (h : s.k.seq.st.active = false) :
+    seqReleasedHookV2 s cur = .ok s := by
+  unfold seqReleasedHookV2
+  simp only [h, Bool.not_false, if_true]
+  split <;> rfl
+
+theorem seqReleasedHookV2_synced (s : KV2) (cur : List KeyCode) (h : ∀ x ∈ s.k.prevKeys, x ∈ cur) :
+    seqReleasedHookV2 s cur = .ok s := by
+  unfold seqReleasedHookV2
+  cases cur with
+  | cons c cs => simp
+  | nil =>
+    have : s.k.prevKeys = [] := by
+      cases hp : s.k.prevKeys with
+      | nil => rfl
+      | cons y ys => exact absurd (h y (by simp [hp])) (by simp)
+    simp [this]
+
+theorem pressLoopV2_synced (cur xs : List KeyCode) (s : KV2) (h : ∀ x ∈ xs, x ∈ s.k.prevKeys) :
+    pressLoopV2 cur xs s = .ok s := by
+  induction xs with
+  | nil => rfl
+  | cons x xs ih =>
+    have hc : s.k.prevKeys.contains x = true := by simpa using h x (by simp)
+    unfold pressLoopV2
+    simp only [hc, if_true]
+    exact ih (fun y hy => h y (by simp [hy]))
+
+theorem pressLoopV2_off (cur xs : List KeyCode) (s : KV2) (h : s.k.seq.off = true) :
+    pressLoopV2 cur xs s = .ok { s with k := pressNew s.k xs } := by
+  induction xs generalizing s with
+  | nil => rfl
+  | cons x xs ih =>
+    unfold pressLoopV2 pressNew
+    simp only [List.foldl_cons]
+    split
+    · have := ih s h
+      unfold pressNew at this
+      exact this
+    · simp only [off_alwaysOnStep s.k.seq h, off_inactive s.k.seq h, Bool.false_eq_true, if_false]
+      have := ih { s with k := pressKey { s.k with prevKeys := s.k.prevKeys ++ [x], lastPressedKey := x } x }
+        (by show (pressKey _ x).seq.off = true; rw [pressKey_seq]; exact h)
+      unfold pressNew at this
+      exact this
+
 /-- `handle_keystate_changes` after a layout tick that returned no custom event -/
 def hkcNoEv (k : KState) : Except K.Crash KState :=
   match k.overrides.overrideKeys (adjustKeys k (k.curKeys ++ k.layout.keycodes)) k.overrideStates with
@@ -89,15 +147,29 @@ def hkcNoEv (k : KState) : Except K.Crash KState :=
     let k := pressNew (releaseOld k cur false) cur
     .ok { k with curKeys := cur }
 
-theorem hkcRestV2_noEvent (s : KV2) :
+/-- [seq] the state the key diff starts from has sequence mode off when `k` has -/
+theorem diffStart_off (k : KState) (ost : Override.OverrideStates) (cur : List KeyCode) (rev : Bool)
+    (h : k.seq.off = true) :
+    (releaseOld (applyCapsWord (eraseOverridden { k with overrideStates := ost } ost.toRemove) cur).2
+      (applyCapsWord (eraseOverridden { k with overrideStates := ost } ost.toRemove) cur).1 rev).seq.off = true := by
+  rw [releaseOld_seq, applyCapsWord_seq, eraseOverridden_seq]; exact h
+
+theorem hkcRestV2_noEvent (s : KV2) (hoff : s.k.seq.off = true) :
     hkcRestV2 s .noEvent = (match hkcNoEv s.k with | .error c => .error c | .ok k => .ok { s with k }) := by
   unfold hkcRestV2 hkcNoEv
   simp only [applyUnmodEvent, hkcCustomV2]
   cases s.k.overrides.overrideKeys (adjustKeys s.k (s.k.curKeys ++ s.k.layout.keycodes)) s.k.overrideStates with
   | error c => rfl
-  | ok r => rfl
+  | ok r =>
+    obtain ⟨cur, ost⟩ := r
+    have h1 := diffStart_off s.k ost cur false hoff
+    simp only []
+    rw [seqReleasedHookV2_inactive _ _ (off_inactive _ h1)]
+    simp only []
+    rw [pressLoopV2_off _ _ _ h1]
 
-theorem handleKeystateChanges_noEvent (k : KState) (l' : Layout) (ht : tick k.layout = .ok (l', .noEvent)) :
+theorem handleKeystateChanges_noEvent (k : KState) (l' : Layout) (ht : tick k.layout = .ok (l', .noEvent))
+    (hoff : k.seq.off = true) :
     handleKeystateChanges k = hkcNoEv { k with layout := l' } := by
   unfold handleKeystateChanges hkcNoEv
   simp only [ht, applyUnmodEvent, hkcCustom]
@@ -105,16 +177,44 @@ theorem handleKeystateChanges_noEvent (k : KState) (l' : Layout) (ht : tick k.la
       (adjustKeys { k with layout := l' } (({ k with layout := l' } : KState).curKeys ++ l'.keycodes))
       ({ k with layout := l' } : KState).overrideStates with
   | error c => rfl
-  | ok r => rfl
+  | ok r =>
+    obtain ⟨cur, ost⟩ := r
+    have h1 := diffStart_off ({ k with layout := l' } : KState) ost cur false hoff
+    simp only []
+    rw [seqReleasedHook_inactive _ _ (off_inactive _ h1)]
+    simp only []
+    rw [pressLoop_off _ _ _ h1]
 
 /-- with the chords-v2 machine at rest and a layout tick without custom event, `handle_keystate_changes`
 over the layout with chords v2 is the original one, next to one `restTick` of the machine -/
 theorem handleKeystateChangesV2_rest (k : KState) (ch : ChV2) (h : Chv2Rest ch) (l' : Layout)
-    (ht : tick k.layout = .ok (l', .noEvent)) (k' : KState) (hk : handleKeystateChanges k = .ok k') :
+    (ht : tick k.layout = .ok (l', .noEvent)) (k' : KState) (hk : handleKeystateChanges k = .ok k')
+    (hoff : k.seq.off = true) :
     handleKeystateChangesV2 { k, chv2 := some ch } = .ok { k := k', chv2 := some (restTick ch k.layout.currentLayer) } := by
-  rw [handleKeystateChanges_noEvent k l' ht] at hk
+  rw [handleKeystateChanges_noEvent k l' ht hoff] at hk
   unfold handleKeystateChangesV2
-  simp only [KV2.lv, layoutV2_tick_rest k.layout ch h l' .noEvent ht, KV2.setLv, hkcRestV2_noEvent, hk]
+  simp only [KV2.lv, layoutV2_tick_rest k.layout ch h l' .noEvent ht, KV2.setLv]
+  rw [hkcRestV2_noEvent _ hoff]
+  simp only [hk]
+
+/-- [seq] `handle_keystate_changes` of the twin after a layout tick without custom event, when the OS key
+state and the wanted list coincide (C07's `Synced`): nothing moves, whatever the sequence state (no
+key is new, the all-released hook does not run) -/
+theorem hkcRestV2_quiet (s : KV2) (cur' : List KeyCode) (ost : Override.OverrideStates)
+    (hov : s.k.overrides.overrideKeys (adjustKeys s.k (s.k.curKeys ++ s.k.layout.keycodes)) s.k.overrideStates = .ok (cur', ost))
+    (hrm : ost.toRemove = []) (hcw : s.k.capsWord = none) (hsync : C07.Synced s.k cur') :
+    hkcRestV2 s .noEvent = .ok { s with k := { s.k with overrideStates := ost, curKeys := cur' } } := by
+  have hsync' : C07.Synced ({ s.k with overrideStates := ost } : KState) cur' := hsync
+  have hcw' : applyCapsWord ({ s.k with overrideStates := ost } : KState) cur'
+      = (cur', { s.k with overrideStates := ost }) := by
+    unfold applyCapsWord; simp only [hcw]
+  have hro := C07.releaseOld_synced ({ s.k with overrideStates := ost } : KState) cur' false hsync'.1
+  have hh : seqReleasedHookV2 { s with k := { s.k with overrideStates := ost } } cur'
+      = .ok { s with k := { s.k with overrideStates := ost } } := seqReleasedHookV2_synced _ _ hsync'.1
+  have hp : pressLoopV2 cur' cur' { s with k := { s.k with overrideStates := ost } }
+      = .ok { s with k := { s.k with overrideStates := ost } } := pressLoopV2_synced _ _ _ hsync'.2
+  unfold hkcRestV2
+  simp only [applyUnmodEvent, hov, hrm, C07.eraseOverridden_nil, hcw', hro, hh, hp, hkcCustomV2]
 
 theorem tickIdleTimeoutV2_nil (s : KV2) (h : s.k.waitingForIdle = []) : tickIdleTimeoutV2 s = .ok s := by
   unfold tickIdleTimeoutV2
@@ -142,14 +242,49 @@ theorem restTickO_rest (c : Option ChV2) (layer : Nat) (h : Chv2RestO c) : Chv2R
     rw [← hch]; exact restTick_rest c0 layer (h c0 rfl)
 
 theorem handleKeystateChangesV2_restO (k : KState) (c : Option ChV2) (h : Chv2RestO c) (l' : Layout)
-    (ht : tick k.layout = .ok (l', .noEvent)) (k' : KState) (hk : handleKeystateChanges k = .ok k') :
+    (ht : tick k.layout = .ok (l', .noEvent)) (k' : KState) (hk : handleKeystateChanges k = .ok k')
+    (hoff : k.seq.off = true) :
     handleKeystateChangesV2 { k, chv2 := c } = .ok { k := k', chv2 := restTickO c k.layout.currentLayer } := by
   cases c with
-  | some ch => exact handleKeystateChangesV2_rest k ch (h ch rfl) l' ht k' hk
+  | some ch => exact handleKeystateChangesV2_rest k ch (h ch rfl) l' ht k' hk hoff
   | none =>
-    rw [handleKeystateChanges_noEvent k l' ht] at hk
+    rw [handleKeystateChanges_noEvent k l' ht hoff] at hk
     unfold handleKeystateChangesV2
-    simp only [KV2.lv, LayoutV2.tick, tickV2Pre, ht, KV2.setLv, hkcRestV2_noEvent, hk]
+    simp only [KV2.lv, LayoutV2.tick, tickV2Pre, ht, KV2.setLv]
+    rw [hkcRestV2_noEvent _ hoff]
+    simp only [hk]
     rfl
+
+/-- [seq] `handle_keystate_changes` of the twin from a quiet, synced state (C07's hypotheses), whatever
+the sequence state: the layout ages, the chords-v2 machine does one `restTick`, nothing else moves -/
+theorem handleKeystateChangesV2_quiet (s : KV2) (hr : Chv2RestO s.chv2) (hq : C07.QuietLayout s.k.layout)
+    (hcw : s.k.capsWord = none) (hcur : s.k.curKeys = []) (cur' : List KeyCode) (ost : Override.OverrideStates)
+    (hov : s.k.overrides.overrideKeys (adjustKeys s.k s.k.layout.keycodes) s.k.overrideStates = .ok (cur', ost))
+    (hrm : ost.toRemove = []) (hsync : C07.Synced s.k cur') :
+    handleKeystateChangesV2 s = .ok { k := { s.k with layout := tickPre s.k.layout, overrideStates := ost, curKeys := cur' },
+                                      chv2 := restTickO s.chv2 s.k.layout.currentLayer } := by
+  have ht := C07.tick_quiet_eq s.k.layout hq
+  have hst := (C07.tickPre_quiet s.k.layout hq).1
+  have hkc : (tickPre s.k.layout).keycodes = s.k.layout.keycodes := by unfold Layout.keycodes; rw [hst]
+  have hov' : ({ s.k with layout := tickPre s.k.layout } : KState).overrides.overrideKeys
+      (adjustKeys { s.k with layout := tickPre s.k.layout }
+        (({ s.k with layout := tickPre s.k.layout } : KState).curKeys ++ (tickPre s.k.layout).keycodes))
+      ({ s.k with layout := tickPre s.k.layout } : KState).overrideStates = .ok (cur', ost) := by
+    have : adjustKeys { s.k with layout := tickPre s.k.layout }
+        (({ s.k with layout := tickPre s.k.layout } : KState).curKeys ++ (tickPre s.k.layout).keycodes)
+        = adjustKeys s.k s.k.layout.keycodes := by
+      simp only [hcur, List.nil_append, hkc]; rfl
+    rw [this]; exact hov
+  have hq2 := hkcRestV2_quiet
+  obtain ⟨k, c⟩ := s
+  cases c with
+  | some ch =>
+    unfold handleKeystateChangesV2
+    simp only [KV2.lv, layoutV2_tick_rest k.layout ch (hr ch rfl) _ .noEvent ht, KV2.setLv]
+    exact hq2 { k := { k with layout := tickPre k.layout }, chv2 := some (restTick ch k.layout.currentLayer) } cur' ost hov' hrm hcw hsync
+  | none =>
+    unfold handleKeystateChangesV2
+    simp only [KV2.lv, LayoutV2.tick, tickV2Pre, ht, KV2.setLv]
+    exact hq2 { k := { k with layout := tickPre k.layout }, chv2 := none } cur' ost hov' hrm hcw hsync
 
 end KVerif.C09
